@@ -87,7 +87,7 @@ func (g *G) produceFaults(n int, clients []string, nbroker int64, horizonMs int6
 			f.Kind = "partial_write"
 			f.Arg = g.rng(1, 200)
 		case w < 72:
-			f.Kind = g.pickS("delay", "delay_resp")
+			f.Kind = g.pickS("delay", "delay_resp", "delay_resp_move")
 			f.DurMs = g.rng(10, 12000)
 		case w < 78:
 			f.Kind = g.pickS("stall", "stall_resp")
